@@ -584,3 +584,42 @@ package command
 //@   entry row cached: [call newIPPortGenerator(_) as (g0) ; call newIPPortGenerator(_) as (g) ; call arp.NewCacheRequestGenerator(g, o.gatewayMAC, o.cache) as (g2) ; call getUDPOptions(o) as (os) ; call udp.NewPacketFiller(os) as (pf) ;
 //@                      call scan.NewPacketMultiGenerator(bind_pf2, _) as (pg) ; call scan.NewPacketSource(g2, bind_pg2) as (ps) ; call scan.NewResultChan(ctx, _) as (rc) ; call udp.NewScanMethod(ps, rc, o.vpnMode) as (m)]
 //@                       when o.cache != nil && isptr(pf2, udp.PacketFiller) && asptr(pf2, udp.PacketFiller) == pf && ret == m -> exit
+
+//@ func (*icmpCmdOpts).newICMPScanMethod
+//@   props C05 C11 C17 C01 C02 C13
+//@   observe getICMPOptions
+//@   opaque scan.NewIPGenerator, scan.NewFileIPGenerator, scan.NewIPRequestGenerator, scan.NewFilterIPRequestGenerator, arp.NewCacheRequestGenerator, icmp.NewPacketFiller, scan.NewPacketMultiGenerator, scan.NewPacketSource, scan.NewResultChan, icmp.NewScanMethod
+//@   entry row r000: [call scan.NewIPGenerator() as (ig) ; call scan.NewIPRequestGenerator(ig) as (g) ; call getICMPOptions(o) as (os) ; call icmp.NewPacketFiller(os) as (pf) ; call scan.NewPacketMultiGenerator(bind_pf2, _) as (pg) ; call scan.NewPacketSource(g, bind_pg2) as (ps) ; call scan.NewResultChan(ctx, _) as (rc) ; call icmp.NewScanMethod(ps, rc, o.vpnMode) as (m)]
+//@                       when len(o.ipFile) == 0 && o.excludeIPs == nil && o.cache == nil && isptr(pf2, icmp.PacketFiller) && asptr(pf2, icmp.PacketFiller) == pf && ret == m -> exit
+//@   entry row r001: [call scan.NewIPGenerator() as (ig) ; call scan.NewIPRequestGenerator(ig) as (g) ; call arp.NewCacheRequestGenerator(g, o.gatewayMAC, o.cache) as (g3) ; call getICMPOptions(o) as (os) ; call icmp.NewPacketFiller(os) as (pf) ; call scan.NewPacketMultiGenerator(bind_pf2, _) as (pg) ; call scan.NewPacketSource(g3, bind_pg2) as (ps) ; call scan.NewResultChan(ctx, _) as (rc) ; call icmp.NewScanMethod(ps, rc, o.vpnMode) as (m)]
+//@                       when len(o.ipFile) == 0 && o.excludeIPs == nil && o.cache != nil && isptr(pf2, icmp.PacketFiller) && asptr(pf2, icmp.PacketFiller) == pf && ret == m -> exit
+//@   entry row r010: [call scan.NewIPGenerator() as (ig) ; call scan.NewIPRequestGenerator(ig) as (g) ; call scan.NewFilterIPRequestGenerator(g, o.excludeIPs) as (g2) ; call getICMPOptions(o) as (os) ; call icmp.NewPacketFiller(os) as (pf) ; call scan.NewPacketMultiGenerator(bind_pf2, _) as (pg) ; call scan.NewPacketSource(g2, bind_pg2) as (ps) ; call scan.NewResultChan(ctx, _) as (rc) ; call icmp.NewScanMethod(ps, rc, o.vpnMode) as (m)]
+//@                       when len(o.ipFile) == 0 && o.excludeIPs != nil && o.cache == nil && isptr(pf2, icmp.PacketFiller) && asptr(pf2, icmp.PacketFiller) == pf && ret == m -> exit
+//@   entry row r011: [call scan.NewIPGenerator() as (ig) ; call scan.NewIPRequestGenerator(ig) as (g) ; call scan.NewFilterIPRequestGenerator(g, o.excludeIPs) as (g2) ; call arp.NewCacheRequestGenerator(g2, o.gatewayMAC, o.cache) as (g3) ; call getICMPOptions(o) as (os) ; call icmp.NewPacketFiller(os) as (pf) ; call scan.NewPacketMultiGenerator(bind_pf2, _) as (pg) ; call scan.NewPacketSource(g3, bind_pg2) as (ps) ; call scan.NewResultChan(ctx, _) as (rc) ; call icmp.NewScanMethod(ps, rc, o.vpnMode) as (m)]
+//@                       when len(o.ipFile) == 0 && o.excludeIPs != nil && o.cache != nil && isptr(pf2, icmp.PacketFiller) && asptr(pf2, icmp.PacketFiller) == pf && ret == m -> exit
+//@   entry row r100: [call scan.NewIPGenerator() as (ig0) ; call scan.NewFileIPGenerator(_) as (ig) ; call scan.NewIPRequestGenerator(ig) as (g) ; call getICMPOptions(o) as (os) ; call icmp.NewPacketFiller(os) as (pf) ; call scan.NewPacketMultiGenerator(bind_pf2, _) as (pg) ; call scan.NewPacketSource(g, bind_pg2) as (ps) ; call scan.NewResultChan(ctx, _) as (rc) ; call icmp.NewScanMethod(ps, rc, o.vpnMode) as (m)]
+//@                       when len(o.ipFile) > 0 && o.excludeIPs == nil && o.cache == nil && isptr(pf2, icmp.PacketFiller) && asptr(pf2, icmp.PacketFiller) == pf && ret == m -> exit
+//@   entry row r101: [call scan.NewIPGenerator() as (ig0) ; call scan.NewFileIPGenerator(_) as (ig) ; call scan.NewIPRequestGenerator(ig) as (g) ; call arp.NewCacheRequestGenerator(g, o.gatewayMAC, o.cache) as (g3) ; call getICMPOptions(o) as (os) ; call icmp.NewPacketFiller(os) as (pf) ; call scan.NewPacketMultiGenerator(bind_pf2, _) as (pg) ; call scan.NewPacketSource(g3, bind_pg2) as (ps) ; call scan.NewResultChan(ctx, _) as (rc) ; call icmp.NewScanMethod(ps, rc, o.vpnMode) as (m)]
+//@                       when len(o.ipFile) > 0 && o.excludeIPs == nil && o.cache != nil && isptr(pf2, icmp.PacketFiller) && asptr(pf2, icmp.PacketFiller) == pf && ret == m -> exit
+//@   entry row r110: [call scan.NewIPGenerator() as (ig0) ; call scan.NewFileIPGenerator(_) as (ig) ; call scan.NewIPRequestGenerator(ig) as (g) ; call scan.NewFilterIPRequestGenerator(g, o.excludeIPs) as (g2) ; call getICMPOptions(o) as (os) ; call icmp.NewPacketFiller(os) as (pf) ; call scan.NewPacketMultiGenerator(bind_pf2, _) as (pg) ; call scan.NewPacketSource(g2, bind_pg2) as (ps) ; call scan.NewResultChan(ctx, _) as (rc) ; call icmp.NewScanMethod(ps, rc, o.vpnMode) as (m)]
+//@                       when len(o.ipFile) > 0 && o.excludeIPs != nil && o.cache == nil && isptr(pf2, icmp.PacketFiller) && asptr(pf2, icmp.PacketFiller) == pf && ret == m -> exit
+//@   entry row r111: [call scan.NewIPGenerator() as (ig0) ; call scan.NewFileIPGenerator(_) as (ig) ; call scan.NewIPRequestGenerator(ig) as (g) ; call scan.NewFilterIPRequestGenerator(g, o.excludeIPs) as (g2) ; call arp.NewCacheRequestGenerator(g2, o.gatewayMAC, o.cache) as (g3) ; call getICMPOptions(o) as (os) ; call icmp.NewPacketFiller(os) as (pf) ; call scan.NewPacketMultiGenerator(bind_pf2, _) as (pg) ; call scan.NewPacketSource(g3, bind_pg2) as (ps) ; call scan.NewResultChan(ctx, _) as (rc) ; call icmp.NewScanMethod(ps, rc, o.vpnMode) as (m)]
+//@                       when len(o.ipFile) > 0 && o.excludeIPs != nil && o.cache != nil && isptr(pf2, icmp.PacketFiller) && asptr(pf2, icmp.PacketFiller) == pf && ret == m -> exit
+
+// VPN framing is selected exactly when the chosen range has no source MAC (C17)
+//@ func (*ipScanCmdOpts).parseOptions
+//@   props C17
+//@   observe getScanRange
+//@   opaque (*ipScanCmdOpts).parseDstSubnet, (*packetScanCmdOpts).getLogger, (*ipScanCmdOpts).validateARPStdin, (*ipScanCmdOpts).parseARPCache, (*ipScanCmdOpts).getGatewayMAC
+//@   entry row nosubnet: [call parseDstSubnet(_, args) as (n, e)] when e != nil && ret == e -> exit
+//@   entry row norange:  [call parseDstSubnet(_, args) as (n, e) ; call getScanRange(_, n) as (r, e2)] when e == nil && e2 != nil && ret == e2 -> exit
+//@   entry row nolog:    [call parseDstSubnet(_, args) as (n, e) ; call getScanRange(_, n) as (r, e2) ; call getLogger(_, scanName, _) as (lg, e3)] when e == nil && e2 == nil && e3 != nil && ret == e3 -> exit
+//@   entry row vpn:      [call parseDstSubnet(_, args) as (n, e) ; call getScanRange(_, n) as (r, e2) ; call getLogger(_, scanName, _) as (lg, e3)]
+//@                          when e == nil && e2 == nil && e3 == nil && (r.SrcMAC == nil || pre(o.vpnMode)) && o.vpnMode && o.scanRange == r && o.logger == lg && ret == nil -> exit
+//@   entry row stdin:    [call parseDstSubnet(_, args) as (n, e) ; call getScanRange(_, n) as (r, e2) ; call getLogger(_, scanName, _) as (lg, e3) ; call validateARPStdin(_) as (e4)]
+//@                          when e == nil && e2 == nil && e3 == nil && r.SrcMAC != nil && !pre(o.vpnMode) && e4 != nil && ret == e4 -> exit
+//@   entry row nocache:  [call parseDstSubnet(_, args) as (n, e) ; call getScanRange(_, n) as (r, e2) ; call getLogger(_, scanName, _) as (lg, e3) ; call validateARPStdin(_) as (e4) ; call parseARPCache(_) as (ca, e5)]
+//@                          when e4 == nil && e5 != nil && ret == e5 -> exit
+//@   entry row full:     [call parseDstSubnet(_, args) as (n, e) ; call getScanRange(_, n) as (r, e2) ; call getLogger(_, scanName, _) as (lg, e3) ; call validateARPStdin(_) as (e4) ; call parseARPCache(_) as (ca, e5) ;
+//@                        call getGatewayMAC(_, r.Interface, ca) as (gw, e6)]
+//@                          when e4 == nil && e5 == nil && o.scanRange == r && o.logger == lg && o.cache == ca && ret == e6 && (e6 == nil ==> o.gatewayMAC == gw) -> exit
